@@ -1,5 +1,6 @@
 import DroopProofs
 import Props.C02
+import Props.C01
 /-!
 # C09 — candidate status only moves forward; seats are never over-committed
 
@@ -27,5 +28,12 @@ theorem scotland_elected_le_seats (p : Nat) (s0 s4 : St Int) (h0 : ScotStart (fi
 /-- the forward relation is what the property says: no way back from D or E, nothing leaves W -/
 example : fwd "D" "H" = false ∧ fwd "E" "H" = false ∧ fwd "E" "e" = false ∧ fwd "W" "H" = false ∧ fwd "D" "E" = false
     ∧ fwd "H" "e" = true ∧ fwd "e" "E" = true ∧ fwd "H" "D" = true := by decide
+
+/-- cfer / cfer-batch: the whole record is forward-only and append-only -/
+theorem cfer_record_monotone (p : Nat) (batch : Bool) (s0 t : St Int) (hinit : Init (fixedArith p) s0)
+    (hfresh : ∀ c ∈ s0.cands, c.st ≠ .elected) (henough : s0.seats ≤ nHop s0) (hround : s0.round = 0)
+    (h : cferCount (fixedArith p) batch s0 = some t) : RecMon (snaps t.acts) ∧ Ext s0 t := by
+  have := cfer_result _ (fixed_lawful p) rfl batch s0 t (C01.cfer_start p s0 hinit hfresh henough hround) h
+  exact ⟨this.1, this.2.1⟩
 
 end Droop.C09
